@@ -36,6 +36,18 @@ SWAPS2 = [(r"\.rev\(\)", ""), (r"\.clone\(\)", ""), (r"\b(\d\d+)\b", "+1"), (r"\
           (r"\^=", "|="), (r"\.0\b", ".1"), (r"\.1\b", ".0"), (r"\.is_empty\(\)", ".is_empty() == false"), (r"\bcontinue;", "break;"), (r"\bbreak;", "continue;")]
 
 
+# API-level mutants: a sibling method, a narrower cast, a dropped adapter
+API = [(r"\.chars\(\)", ".chars().skip(1)"), (r"\.chars\(\)", ".chars().rev()"), (r"\.trim\(\)", ".trim_end()"), (r"\.trim\(\)", ".trim_start()"),
+       (r" as isize", " as i32 as isize"), (r" as isize", " as u16 as isize"), (r" as usize", " as u8 as usize"), (r" as u64", " as u32 as u64"), (r" as u32", " as u16 as u32"),
+       (r" as i64", " as i32 as i64"), (r" as u8", " as u8 & 0x7f"), (r" as u128", " as u64 as u128"),
+       (r"\.iter\(\)", ".iter().rev()"), (r"\.iter\(\)", ".iter().skip(1)"), (r"\.pop\(\)", ".last().cloned()"),
+       (r"\.push\(", ".insert(0, "), (r"\.last\(\)", ".first()"), (r"\.len\(\)", ".capacity()"), (r"\.len\(\)", ".len().saturating_sub(1)"),
+       (r"\.is_zero\(\)", ".is_pos()"), (r"\.is_nan\(\)", ".is_zero()"), (r"\.is_pos\(\)", ".is_zero()"), (r"set_move", "set_copy"),
+       (r"\.minus\(\)", ".flip()"), (r"\.flip\(\)", ".minus()"), (r"\.minus\(\);", ".shrink_to_fit();"), (r"\.to_string\(\)", ".to_string().trim().to_string()"),
+       (r"\.clone\(\)", ".clone().into()"), (r"\.contains\(", ".starts_with("), (r"\.extend\(", ".clone().extend("), (r"\.unwrap_or\(", ".unwrap_or_default().max("),
+       (r"\.rev\(\)", ".rev().skip(1)"), (r"\.enumerate\(\)", ".enumerate().skip(1)"), (r"\.zip\(", ".rev().zip(")]
+
+
 def code_lines(path):
     """(line number, text) of lines that are code: not comments, not doc tests, not inside string-only template lines"""
     out = []
@@ -86,6 +98,10 @@ def mutants(files, rnd):
                             continue  # a declaration or a struct field name, not a use
                         new = code[: m.start()] + b_ + code[m.end():] + l[len(code):]
                         ms.append({"file": f, "line": i, "old": l.strip(), "new": new.strip(), "text": new, "op": "pair"})
+            for pat, rep in API:
+                for m in re.finditer(pat, code):
+                    new = code[: m.start()] + rep + code[m.end():] + l[len(code):]
+                    ms.append({"file": f, "line": i, "old": l.strip(), "new": new.strip(), "text": new, "op": "api"})
             # ranges, error propagation, character literals
             for pat, rep in ((r"(?<![.=])\.\.(?![.=])", "..="), (r"\.\.=", ".."), (r"\b0\.\.", "1.."), (r"\)\?;", ").ok();"), (r"\)\?$", ").ok()")):
                 for m in re.finditer(pat, code):
